@@ -762,6 +762,7 @@ fn main() -> std::process::ExitCode {
         }
     }
     floors.push(("addr-top", 0.05));
+    floors.push(("relifted-after-the-sibling-translator", 0.10));
     spec.floors = floors;
     spec.assumptions = vec![
         "guard determinism is sampled (all-zero, all-ones, per-scalar one-hot patterns and random valuations, 64 per guard set), not proved".into(),
